@@ -240,12 +240,13 @@ func (group *AbacoGroup) fillMissingPackets() (bytesAdded, packetsAdded, framesA
 	snexpect := group.lastSN + 1
 	for _, p := range group.queue {
 		sn := p.SequenceNumber()
-		if sn <= group.lastSN {
+		// Sequence numbers are 32-bit counters that wrap around: compare them by their (signed) difference.
+		if int32(sn-group.lastSN) <= 0 {
 			// Left in the queue by an earlier call (another group was lagging): already checked for gaps.
 			newq = append(newq, p)
 			continue
 		}
-		for snexpect < sn {
+		for int32(sn-snexpect) > 0 {
 			pfake := p.MakePretendPacket(snexpect, group.nchan)
 			newq = append(newq, pfake)
 			packetsAdded++
@@ -269,7 +270,7 @@ func (group *AbacoGroup) trimPacketsBefore(firstSn uint32) {
 	firstSn += group.seqnumsync
 	for {
 		sn0 := group.queue[0].SequenceNumber()
-		if sn0 >= firstSn {
+		if int32(sn0-firstSn) >= 0 {
 			return
 		}
 		group.queue = group.queue[1:]
